@@ -104,7 +104,7 @@ var vbDocumented = []struct {
 }{
 	{"ENUM_NO_DELETE", "FILE", 0}, {"FILE_NO_DELETE", "FILE", 0}, {"MESSAGE_NO_DELETE", "FILE", 0}, {"SERVICE_NO_DELETE", "FILE", 0},
 	{"EXTENSION_NO_DELETE", "FILE", 2},
-	{"ENUM_VALUE_NO_DELETE", "PACKAGE", 0}, {"EXTENSION_MESSAGE_NO_DELETE", "PACKAGE", 0}, {"FIELD_NO_DELETE", "PACKAGE", 0},
+	{"ENUM_VALUE_NO_DELETE", "PACKAGE", 0}, {"ENUM_SAME_TYPE", "PACKAGE", 0}, {"EXTENSION_MESSAGE_NO_DELETE", "PACKAGE", 0}, {"FIELD_NO_DELETE", "PACKAGE", 0},
 	{"FIELD_SAME_CARDINALITY", "PACKAGE", 0}, {"FIELD_SAME_JSTYPE", "PACKAGE", 0}, {"FIELD_SAME_TYPE", "PACKAGE", 0},
 	{"FILE_SAME_CC_ENABLE_ARENAS", "PACKAGE", 0}, {"FILE_SAME_CC_GENERIC_SERVICES", "PACKAGE", 0}, {"FILE_SAME_CSHARP_NAMESPACE", "PACKAGE", 0},
 	{"FILE_SAME_GO_PACKAGE", "PACKAGE", 0}, {"FILE_SAME_JAVA_GENERIC_SERVICES", "PACKAGE", 0}, {"FILE_SAME_JAVA_MULTIPLE_FILES", "PACKAGE", 0},
